@@ -1322,6 +1322,29 @@ def spelling_obligations(rep, tier, unit='wiring:spellings'):
     for name, (a, b) in variants.items():
         rep.add(unit, f'{name}: same syntax tree', 'ground', tree(a) == tree(b) and not tree(a).startswith(('ParseError', 'PartialParseError')),
                 detail={'a': tree(a)[:160], 'b': tree(b)[:160]})
+    # layout family: every line break of a laid-out rendering replaced by blank lines / comment lines / trailing comments
+    import re as _re
+
+    def tree_nl(desc):          # the operator-table node keeps the layout text after each row (`tail`): not part of the meaning
+        return _re.sub(r"tail=(None|\[[^\]]*\])", 'tail=_', tree(desc))
+    layouts = {
+        'binary operators at line starts': ('A = "a" | "b" >> "c" // "," |> `f` where `g`', 'A = "a"\n  | "b"\n  >> "c"\n  // ","\n  |> `f`\n  where `g`'),
+        'binary operators at line ends': ('A = "a" | "b" << "c"', 'A = "a" |\n  "b" <<\n  "c"'),
+        'lists and argument lists': ('A = ["a", T("b", k="c")]', 'A = [\n  "a"\n  ,\n  T(\n    "b"\n    , k="c"\n  )\n]'),
+        'class body': ('class K { a: "a"; b: "b" }', 'class K {\n a: "a"\n b: "b"\n}'),
+        'statements': ('A = "a"; B = "b"; C = [A, B]', 'A = "a"\nB = "b"\nC = [A, B]'),
+        'operator table': ('E = "n" between { left: "+", "-"; prefix: "!" }', 'E = "n" between {\n left: "+", "-"\n prefix: "!"\n}'),
+        'parenthesised group': ('A = ("a" | "b")+', 'A = (\n "a"\n | "b"\n)+'),
+        'let body': ('A = let x = "a" in x', 'A = let x = "a" in\n x'),
+        'parameter list': ('T(a, b) = [a, b]', 'T(\n a,\n b\n) = [a, b]'),
+    }
+    fillers = {'line break': '\n', 'blank line': '\n\n', 'comment line': '\n# c\n', 'indented comment lines and a blank line': '\n   # c1\n\n  # c2\n', 'trailing comment': '  # t\n'}
+    for lname, (a, b) in layouts.items():
+        ta = tree_nl(a)
+        for fname, fill in fillers.items():
+            tb = tree_nl(b.replace('\n', fill))
+            rep.add(unit, f'layout [{lname}] with every line break rendered as {fname}: same syntax tree as the one-line form', 'ground',
+                    ta == tb and not ta.startswith(('ParseError', 'PartialParseError')), detail={'a': ta[:160], 'b': tb[:160]})
     # a bare expression is `start = expr`
     from pyvc import locate
     _pg = locate.parse_grammar()
@@ -1598,3 +1621,133 @@ def metadata_obligations(rep, tier, unit='ground:_Metadata'):
         o = PO()
         rep.add(unit, f'ParsedObject.__init__ gives every object its OWN empty metadata and an empty hash cache {tag}', 'ground',
                 isinstance(o._metadata, M) and len(o._metadata) == 0 and o._hash is None and PO()._metadata is not o._metadata)
+
+
+def _support_names_read_by_fragments():
+    """global support names (defined by the run-time templates) that the code emitted for ANY expression can read: union, over one
+    instance of every expression class (both context conventions, inline and spilled), of the template-defined names the emitted
+    text loads.  By A-uniform the names a fragment reads do not depend on its children / literal arguments."""
+    from pyvc import runtime, frag
+    base = ast.parse(runtime.template_source(True))
+    defined = set()
+    for n in base.body:
+        if isinstance(n, (ast.FunctionDef, ast.ClassDef)):
+            defined.add(n.name)
+        elif isinstance(n, (ast.Import, ast.ImportFrom)):
+            defined.update((a.asname or a.name).split('.')[0] for a in n.names)
+        elif isinstance(n, ast.Assign):
+            defined.update(x.id for t in n.targets for x in ast.walk(t) if isinstance(x, ast.Name))
+    builders, _ = _all_expression_builders()
+    leaves = {'Str': lambda: X.Str('s'), 'Str(bytes)': lambda: X.Str(b's'), 'Regex': lambda: X.Regex('a+'), 'Regex(i)': lambda: X.Regex('a+', ignore_case=True),
+              'Regex(bytes)': lambda: X.Regex(b'a+'), 'Byte': lambda: X.Byte(65), 'Ref': lambda: _ref('R'), 'Fail': lambda: X.Fail('m'), 'Pass': lambda: X.Pass(3),
+              'PythonExpression': lambda: X.PythonExpression('f(1)'), 'Call(str arg)': lambda: X.Call(_ref('T'), [X.Str('a'), X.Str(b'b'), X.Byte(66), X.Regex('r')])}
+    used = {}
+    for name, mk in {**builders, **leaves}.items():
+        for ctx in (False, True):
+            for how in ('inline', 'spilled'):
+                try:
+                    e = mk()
+                    src = frag.emit(e, ctx) if how == 'inline' else frag.emit_spilled(e, ctx)
+                    tree = ast.parse(src)
+                except Exception:
+                    continue
+                for t in ast.walk(tree):
+                    if isinstance(t, ast.Name) and isinstance(t.ctx, ast.Load) and t.id in defined:
+                        used.setdefault(t.id, set()).add(name)
+    return used, defined
+
+
+def derived_namespace_obligations(rep, tier, unit='wiring:derived-module-namespace'):
+    """a derived grammar's module imports its run-time support from the parent: every support name that emitted code can read must be
+    among the imports (or defined by the derived module itself), else a rule WRITTEN in the derived grammar raises NameError the first
+    time that construct runs - inherited rules would not notice."""
+    from string import Template
+    from pyvc import locate, runtime
+    used, defined = _support_names_read_by_fragments()
+    rep.add(unit, 'fragments were emitted and read support names (vacuity)', 'schematic', len(used) >= 5, detail={'names': sorted(used)})
+    setup = ast.parse(Template(locate.template('sub_setup')).safe_substitute(super_module='m'))
+    body = ast.parse(Template(locate.template('sub_body')).safe_substitute(start='_try_start', ctx='_ctx'))
+    bound = set()
+    for tr in (setup, body):
+        for n in tr.body:
+            if isinstance(n, (ast.FunctionDef, ast.ClassDef)):
+                bound.add(n.name)
+            elif isinstance(n, (ast.Import, ast.ImportFrom)):
+                bound.update((a.asname or a.name).split('.')[0] for a in n.names)
+            elif isinstance(n, ast.Assign):
+                bound.update(x.id for t in n.targets for x in ast.walk(t) if isinstance(x, ast.Name))
+    imported = {a.name for n in setup.body if isinstance(n, ast.ImportFrom) for a in n.names}
+    for name in sorted(used):
+        rep.add(unit, f'support name {name} (read by emitted code of {", ".join(sorted(used[name]))[:80]}) is bound in a derived module', 'schematic',
+                name in bound, detail={'bound_in_derived_module': sorted(bound)})
+    missing = sorted(imported - defined - {'_ctx'})
+    rep.add(unit, 'every name the derived module imports is defined by the base module', 'schematic', not missing, detail={'missing': missing})
+    # user-visible API of a derived module = that of a base module
+    api = sorted(n for n in defined if not n.startswith('_'))
+    rep.add(unit, 'every public name of a base module is also a name of a derived module', 'schematic', set(api) <= bound, detail={'missing': sorted(set(api) - bound)})
+    # a real derived module whose own rules use every construct: no unbound global
+    import itertools
+    seq = next(_DERIVED_SEQ)
+    from sourcer import Grammar
+    try:
+        Grammar(f'grammar vns{seq}_base\nstart = "a"\n')
+        d = Grammar(f'grammar vns{seq}_der extends vns{seq}_base\n' + C11_GRAMMARS['plain'].replace('start =', 'S2 =') + '\n' +
+                    'E = Atom between {\n left: "+"\n prefix: "-"\n postfix: "!"\n right: "^"\n infix: "="\n}\nAtom = /[0-9]+/ |> `int` where `lambda n: n >= 0`\n'
+                    'L = (A // ",") << B*\nM = T(0x41) | T(b"x") | T(/r/)\n', include_source=True)
+        free = sorted(_free_globals(ast.parse(d._source_code)))
+        rep.add(unit, 'a derived module whose own rules use every construct reads no unbound global', 'schematic', not free, detail={'free': free})
+    except Exception as e:
+        rep.add(unit, 'a derived module whose own rules use every construct reads no unbound global', 'schematic', False, detail={'error': repr(e)[:300]})
+
+
+import itertools as _it
+_DERIVED_SEQ = _it.count(1)
+
+
+BINDER_CASES = {
+    'rule parameter': 'start = T("#")\nT(mark) = %s\nW = /[a-z]+/',
+    'class parameter': 'start = K("#")\nclass K(mark) {\n head: W\n body: %s\n}\nW = /[a-z]+/',
+    'let': 'start = let mark = "#" in %s\nW = /[a-z]+/',
+    'parameter of a template used through an inner let': 'start = T("#")\nT(p) = let mark = p in %s\nW = /[a-z]+/',
+}
+
+
+def frontend_capture_obligations(rep, tier, unit='wiring:captured-names-through-the-front-end'):
+    """names bound by every kind of binder, used under nesting deep enough to force the generator to move the using expression into
+    helper functions (real front end, real translator): no helper reads a name that is not its parameter / a module-level generated
+    name / a run-time name, and every helper request passes the captured names on (so depth cannot turn a bound name into a NameError)"""
+    from pyvc import runtime
+    for title, desc in BINDER_CASES.items():
+        for depth in (1, 25):
+            inner = 'mark >> W'
+            for _ in range(depth):
+                inner = f'[{inner}]'
+            for named in (False, True):
+                tag = f'[{title},depth={depth},named={int(named)}]'
+                text = ('grammar capturetest\n' if named else '') + desc % inner
+                try:
+                    src = runtime.generated_module_source(text)
+                except Exception as e:
+                    rep.add(unit, f'module is generated {tag}', 'case_complete', False, detail={'error': repr(e)[:300]})
+                    continue
+                defs, tree = helper_defs(src)
+                if depth > 20:
+                    rep.add(unit, f'nesting this deep is moved into helpers (vacuity) {tag}', 'case_complete', bool(defs), detail={'helpers': sorted(defs)})
+                bad = {}
+                module_level = {n.name for n in tree.body if isinstance(n, (ast.FunctionDef, ast.ClassDef))} | \
+                    {x.id for n in tree.body if isinstance(n, ast.Assign) for t in n.targets for x in ast.walk(t) if isinstance(x, ast.Name)}
+                for fn in [n for n in tree.body if isinstance(n, ast.FunctionDef) and (n.name.startswith('_parse_function_') or n.name.startswith('_try_'))]:
+                    free = [f for f in unexpected_free(fn, named) if f not in module_level]
+                    if free:
+                        bad[fn.name] = free
+                rep.add(unit, f'every generated function reads only its parameters, generated module-level names and run-time names {tag}', 'case_complete',
+                        not bad, detail={'free': bad})
+                # helpers that take `mark` are requested with it
+                takes = {n for n, fn in defs.items() if 'mark' in astutil.params_of(fn)}
+                wrapped = {}
+                for n in ast.walk(tree):
+                    if isinstance(n, ast.Call) and ast.unparse(n.func) == '_ParseFunction' and n.args and ast.unparse(n.args[0]) in takes:
+                        wrapped[ast.unparse(n.args[0])] = [ast.unparse(x) for x in n.args[1].elts] if isinstance(n.args[1], ast.Tuple) else None
+                miss = sorted(t for t in takes if 'mark' not in (wrapped.get(t) or []))
+                rep.add(unit, f'every helper that takes the bound name is requested with its current value {tag}', 'case_complete', not miss,
+                        detail={'missing': miss, 'wrapped': wrapped})
